@@ -207,7 +207,7 @@ func ruleR05abc(c *Ctx) {
 func ruleR05d(c *Ctx) {
 	const rule = "R05d"
 	newBatcher := c.MustFn(rule, pkgBatching, "NewBatcher")
-	pending := c.MustField(rule, pkgBatching, "Batcher", "pending")
+	pending := c.MustFieldLike(rule, pkgBatching, "Batcher", "pending", func(t types.Type) bool { _, ok := t.Underlying().(*types.Slice); return ok })
 	bmu := c.MustField(rule, pkgBatching, "Batcher", "mu")
 	if newBatcher == nil || pending == nil || bmu == nil {
 		return
